@@ -2,18 +2,53 @@
 """Rebuild §11 of DESIGN.md from seeded/*/meta.json."""
 import json, os, re
 V = os.path.dirname(os.path.dirname(os.path.abspath(__file__)))
+RES = {}
+rp = os.path.join(V, "seeded", "RESULTS.json")
+if os.path.isfile(rp):
+    RES = json.load(open(rp))["results"]
+RRES = {}
+rp = os.path.join(V, "refactors", "RESULTS.json")
+if os.path.isfile(rp):
+    RRES = json.load(open(rp))["results"]
 rows = []
-for d in sorted(os.listdir(os.path.join(V, "seeded")), key=lambda x: (x.split("-")[0], int(x.split("-")[1]))):
+for d in sorted((x for x in os.listdir(os.path.join(V, "seeded")) if "-" in x and x[0] == "C"), key=lambda x: (x.split("-")[0], int(x.split("-")[1]))):
     mp = os.path.join(V, "seeded", d, "meta.json")
     if not os.path.isfile(mp):
         continue
     m = json.load(open(mp))
+    last = RES.get("seeded/" + d, {})
     c = m.get("confirmed_by_coordinator", {})
     res = c.get("check_result", "")
     if c.get("note"):
         res += " — " + c["note"]
     esc = lambda s: str(s).replace("|", "\\|").replace("\n", " ")
-    rows.append("| %s | %s | %s | %s |" % (d, esc(m.get("summary", ""))[:300], esc(m.get("needs", ""))[:260], esc(res)[:420]))
+    auto = ""
+    if last:
+        auto = "%s (%s, /repo %s, /verif %s%s)" % (last.get("status"), last.get("when"), last.get("repo_head"), last.get("verif_commit_at_merge"),
+                                                  "".join(", %ss" % r["seconds"] for r in last.get("runs", [])[:1]))
+    rows.append("| %s | %s | %s | %s | %s | %s |" % (d, m.get("round", 1 if int(d.split("-")[1]) < 10 else 2), esc(m.get("summary", ""))[:300], esc(m.get("needs", ""))[:260], esc(res)[:420], esc(auto)))
+rrows = []
+rd = os.path.join(V, "refactors")
+for d in sorted(x for x in os.listdir(rd) if os.path.isfile(os.path.join(rd, x, "meta.json"))):
+    m = json.load(open(os.path.join(rd, d, "meta.json")))
+    last = RRES.get("refactors/" + d, {})
+    esc = lambda s: str(s).replace("|", "\\|").replace("\n", " ")
+    rrows.append("| %s | %s | %s | %s | %s |" % (d, esc(m.get("kind", "")), esc(m.get("summary", ""))[:330], esc(last.get("status", "not run")),
+                                              esc(m.get("note", ""))[:300]))
+REFAC = """### 11b. Behaviour-preserving refactorings (false-alarm tests)
+
+Refactorings of the code each property is anchored in, written by fresh sub-agents that saw only the property text and a
+scratch worktree: renames, helper extraction/inlining, loop forms, guard clauses, stdlib replacements, constant extraction —
+each verified by its author to leave every observable of the property unchanged (suite passes, generated files byte-identical).
+Kept under `refactors/<id>-r<n>/` (`patch.diff`, `meta.json`).  The aim is `silent`.  Where a check still answers
+`violation, no-failing-input-found`, the reason is a translator tie (T) that no longer recognises the source: the theorems are
+then no longer about what the code says, the correspondence run and the widened search find no failing input, and the check
+says exactly that (the replay file names the tie) — the outcome the task prescribes for a broken tie, but one we try to avoid by
+making the translators accept equivalent forms and the tie lemmas semantic (see §12 notes per property).
+
+| refactoring | kind | change | latest batch run | note |
+|---|---|---|---|---|
+""" + "\n".join(rrows) + "\n\n"
 txt = """## 11. Seeded changes and which checks catch them
 
 Changes to `/repo` written by fresh sub-agents that saw only the property text and a scratch
@@ -26,9 +61,13 @@ without touching the tree other checks read). A seed the first version of a chec
 strengthening of that check; both facts are recorded in the last column. The reverse patches of the
 `fix:` commits (the pinned defects) are caught by the corpus entries that run first in every check.
 
-| seed | change | needs | result |
-|---|---|---|---|
-""" + "\n".join(rows) + "\n\n"
+The column *latest batch run* is written by `tools/batchtest.py` + `tools/merge_results.py` (quick tier, the check run
+exactly as registered, against a scratch worktree with the change applied): `violation with failing input` = caught with a
+concrete replay; `violation, no-failing-input-found` = only a tie/obligation broke; `silent` = missed.
+
+| seed | round | change | needs | history (first result, strengthening) | latest batch run |
+|---|---|---|---|---|---|
+""" + "\n".join(rows) + "\n\n" + REFAC
 p = os.path.join(V, "DESIGN.md")
 s = open(p).read()
 a = s.index("## 11. Seeded changes and which checks catch them")
